@@ -364,12 +364,14 @@ func ruleClone(c *Ctx) {
 			}
 			copied := false
 			for _, ef := range sp.Effects {
-				if ef.Kind == "call" && ef.Target == "copy" && len(ef.Args) == 2 && ef.Args[1].String() == src && strings.HasPrefix(a, ef.Args[0].String()) {
+				// the destination of the copy is the buffer *after* it was resliced to the source length (copying first
+				// would fill only the old length)
+				if ef.Kind == "call" && ef.Target == "copy" && len(ef.Args) == 2 && ef.Args[1].String() == src && ef.Args[0].String() == a {
 					copied = true
 				}
 			}
 			if !copied {
-				msg := "the clone's " + fld + " is not filled by copy(dst." + fld + ", src." + fld + ")"
+				msg := "the clone's " + fld + " is not filled by copy(dst." + fld + ", src." + fld + ") after it was given the source length"
 				if !bad[msg] {
 					bad[msg] = true
 					c.Bad("Clone:"+fld+":copy", p.Pos(fd), msg, "")
